@@ -37,6 +37,7 @@ func runC07(c *Ctx) {
 		c.R.Count("reader call sites["+cfg.Name+"]", n)
 		c.R.Floor("C07.errors", cfg.Name, n, 190)
 		ruleReadFull(c, p, "C07.readfull")
+		ruleEnsureExact(c, p, "C07.ensure")
 		ruleReaderSource(c, p, "C07.source")
 		ruleReadSizes(c, p, "C07.sizes")
 	}
@@ -50,6 +51,8 @@ func runC07(c *Ctx) {
 		ruleInferTables(c, p, "C07")
 		ruleColumnCount(c, p, "C07.colcount")
 		ruleVectoredEquiv(c, p, "C07.vectored")
+		ruleRebuild(c, p, "C07.rebuild")
+		ruleDict(c, p, "C07.dict")
 	}
 	c.R.Assumptions = append(c.R.Assumptions,
 		"io.ReadFull / binary.ReadUvarint / bufio return an error on every short read (standard library contract)",
